@@ -561,16 +561,65 @@ class C01(SeqCheck):
     thorough_n = 40000
     shards = 12
     design_ref = "4 (C01)"
-    technique = "Coq proof (TODO) + differential correspondence check of the public vnet API in synctest bubbles"
-    level_text = "TODO"
-    level_note = "TODO"
-    rule = "TODO"
+    technique = ("Coq proof (invariants of a network model over all event sequences on any topology: at-most-once, payload integrity, covering "
+                 "socket, no overtaking on a trail, per-hop loss freedom, reply through any NAT chain) + differential correspondence check of the "
+                 "public vnet API in synctest bubbles + concurrent tier with the property checked on the implementation's own deliveries")
+    level_text = ("Coq theorems about an executable model of WriteTo / Net.write / Router.push / processChunks (routing, NAT translation up and down) / "
+                  "udpConnMap.find / onInboundChunk / ReadFrom, for every sequence of events (writes, single forwarding steps of any router, reads, "
+                  "bind, Close, time, Start/Stop) on every topology: each datagram identity occurs at most once over all queues, receive queues and "
+                  "read logs (C01_at_most_once); everything queued or read carries the bytes of an accepted write (C01_payload_intact); a socket holds "
+                  "only datagrams addressed to it, a connected socket reads only its remote's (C01_delivered_to_covering_socket); datagrams on the same "
+                  "trail of queues never overtake each other and are read in write order (C01_fifo_same_trail_partial); a write / forwarding step keeps "
+                  "the datagram exactly under the spelled-out admission conditions (C01_write_not_lost, C01_hop_not_lost); a reply to the shown source "
+                  "is translated back to the sender through any chain of NATs after any other traffic while no lifetime has passed "
+                  "(C01_reply_through_nat_chain). Tied to the code by differential histories through the public API on generated topologies, and by a "
+                  "concurrent tier where writers and routers run under the Go scheduler and duplicates, corruption, wrong socket, reordering, loss of "
+                  "admitted datagrams, wrong source and lost replies are checked on what the sockets received")
+    level_note = ("partial: FIFO is proved per trail of queues; that one (sender socket, destination address) always takes the same trail is argued "
+                  "from the tree topology and the persistence of NAT mappings, not mechanised; loss freedom is proved per hop (not as an eventual-"
+                  "delivery theorem); the reply theorem is stated on the NAT Spec and on the chain of NATs, not on the whole network model, and does "
+                  "not cover a sender bound to 127.0.0.1 writing off-host without a NAT on the path (the code forwards such a datagram with source "
+                  "127.0.0.1); minimum delay, jitter and chunk filters are absent from this model (C14-C16); atomicity of one forwarding step "
+                  "(pop / translate / push are separate critical sections of one router goroutine) is argued in Vnet/Network.v and exercised by the "
+                  "concurrent tier, not proved; IPv4/UDP only")
+    rule = ("sequential tier (2/3 of the shards): root router + 0-2 LAN routers nested up to depth 3, NAPT with all 9 mapping/filtering behaviours, "
+            "lifetimes 5 s/30 s/2 min, 1:1 mode, 1-2 external addresses, hosts with static, automatic and two addresses; sockets wildcard / specific / "
+            "loopback / ephemeral / connected; 30-100 operations: writes (payload 0-23, 200-1200 or 1500 bytes; buffer overwritten after the call) to "
+            "bound sockets, NAT external addresses, replies to the last source seen, loopback, unbound ports, unroutable addresses; reads; draining "
+            "every socket (so that nothing else arrived is checked); time steps 1 s-3 min; close; bind; Stop/Start; non-trivial = at least 3 "
+            "datagrams read. Concurrent tier (1/3): wildcard sockets on every host, 1-2 flows per socket of 20-80 numbered datagrams to publicly "
+            "reachable or same-LAN sockets, all senders concurrently, then concurrent replies; non-trivial = at least 100 datagrams; distinct = "
+            "distinct (configuration, operations)")
     trusted = ["testing/synctest (quiescence after each operation, virtual clock for NAT lifetimes)"]
     assumptions = ["IPv4/UDP"]
 
+    def variants(self):
+        base = ["-test.run", "^TestHarness$"]
+        return [(self.hbin, base), (self.hbin, base), (self.hbin, base + ["-mode", "conc"])]
+
+    def model_entry_for(self, conf):
+        return None if conf.split()[:1] == ["9"] else self.model_entry
+
+    def model_postprocess(self, line, model_obs):
+        # concurrent tier: no prediction; the observation is the flag word of the implementation-side oracle and must be 0
+        return "0" if split3(line)[0].split()[:1] == ["9"] else model_obs
+
     def is_nontrivial(self, conf, ops, obs):
+        if conf.split()[:1] == ["9"]:
+            return int(segs(ops)[0].split()[1]) >= 100
         o = segs(obs)
         return sum(1 for x in o if x.startswith("1 ")) >= 3
+
+    def shrink(self, line, pred):
+        if split3(line)[0].split()[:1] == ["9"]:
+            return line
+        return SeqCheck.shrink(self, line, pred)
+
+    def failing_text(self):
+        return ("sequential tier: the implementation's answer differs from the model's (the only answer C01 allows on this history); concurrent tier "
+                "(configuration 9 <seed> <index>): flag word of the oracle on what the sockets received: 1 duplicate, 2 corrupt payload, 4 wrong "
+                "socket, 8 reordered within a flow, 16 admitted datagram lost, 32 wrong or unstable source address, 64 reply to the shown source lost, "
+                "128 datagram nobody wrote")
 
 
 class C13(SeqCheck):
